@@ -23,6 +23,7 @@ from .types import (
     ObjectType,
     ScalarType,
     UnionType,
+    unwrap_type,
 )
 
 
@@ -308,14 +309,19 @@ def _format_default_value(
 ) -> Optional[str]:
     if not input_value.has_default_value:
         return None
+    # Circular imports
+    from ..lang import print_ast
+    from ..utilities.ast_node_from_value import ast_node_from_value
+
     dv = input_value.default_value
-    if isinstance(dv, bool):
-        return str(dv).lower()
-    elif dv is None:
-        return "null"
-    elif isinstance(dv, str):
+    if isinstance(dv, str) and isinstance(
+        unwrap_type(input_value.type), ScalarType
+    ):
         return '"%s"' % dv
-    return json.dumps(dv)
+
+    # GraphQL syntax (not JSON): enum values are printed by name, input
+    # objects use unquoted keys and nested strings are escaped.
+    return print_ast(ast_node_from_value(dv, input_value.type))
 
 
 __InputValue__ = ObjectType(
